@@ -318,7 +318,66 @@ func runC36Case(boot *pgsim.DB, c c36case) (res c36result) {
 		return read(api, "imported:"+reader)
 	}, &res)
 	c36RunQueries(do, "c36", postings, n, read, &res)
+	if strings.HasSuffix(c.ch.Name, "postings") {
+		c36MultiPosting(do, c.ch, n, read, &res)
+	}
 	return
+}
+
+// c36MultiPosting: ONE postings transaction carrying several amounts of the same asset that
+// only differ above a machine word — n, n + 2^64, n + 2^65 (equal low 64 bits), and n with
+// n + 2^32 (equal low 32 bits) — on the three postings channels. Every posting must come back
+// with its own amount, in order. (Seeded change C36b keyed the per-amount script variables of
+// TxToScriptData by the low 64 bits: the second posting was recorded with the first one's
+// amount.) Run last: it adds transactions to the case's ledger.
+func c36MultiPosting(do func(Req) Resp, ch c36channel, n *big.Int, read func(api, reader string) func(where, what string), res *c36result) {
+	add := read(ch.API, "multi-posting-one-transaction")
+	amounts := []*big.Int{n, new(big.Int).Add(n, pow(2, 64)), new(big.Int).Add(n, pow(2, 65)), new(big.Int).Add(n, pow(2, 32))}
+	var ps []string
+	for i, a := range amounts {
+		ps = append(ps, fmt.Sprintf(`{"source":"world","destination":"m:%d","asset":"USD","amount":%s}`, i, a))
+	}
+	body := `{"postings":[` + strings.Join(ps, ",") + `]}`
+	var r Req
+	switch {
+	case ch.Name == "bulk-postings":
+		r = post("/v2/c36/_bulk", `[{"action":"CREATE_TRANSACTION","data":`+body+`}]`)
+	case ch.API == "v1":
+		r = post("/c36/transactions", body)
+	default:
+		r = post("/v2/c36/transactions", body)
+	}
+	resp := do(r)
+	res.reads++
+	if resp.Status >= 300 {
+		add("", fmt.Sprintf("a transaction with postings %v answered %s", amounts, resp.short()))
+		return
+	}
+	tx := ch.TxOf(decode(resp.Body))
+	for i, a := range amounts {
+		got, ok := exactInt(jat(tx, "postings", i, "amount"))
+		if !ok || got.Cmp(a) != 0 {
+			add("", fmt.Sprintf("posting %d of one transaction with amounts %v: returned amount = %v, submitted %s", i, amounts, jat(tx, "postings", i, "amount"), a))
+		}
+	}
+	id, ok := exactInt(jat(tx, "id"))
+	if !ok {
+		if id, ok = exactInt(jat(tx, "txid")); !ok {
+			add("", "the created transaction carries no id")
+			return
+		}
+	}
+	if b := do(get("/v2/c36/transactions/" + id.String())); b.Status == 200 {
+		stored := jat(decode(b.Body), "data")
+		for i, a := range amounts {
+			got, ok := exactInt(jat(stored, "postings", i, "amount"))
+			if !ok || got.Cmp(a) != 0 {
+				add("", fmt.Sprintf("posting %d of transaction %s read back: amount = %v, submitted %s", i, id, jat(stored, "postings", i, "amount"), a))
+			}
+		}
+	} else {
+		add("", "reading the multi-posting transaction back answered "+b.short())
+	}
 }
 
 // c36RunQueries: the same amounts read through stored query templates (POST
